@@ -85,4 +85,19 @@ def Cfg.effective (c : Cfg) : Eff :=
 /-- `NewDecoder(r, opts...)` for option values given as setter chains. -/
 def newDecoder (opts : List (List Setter)) : Eff := (compile (opts.map build)).effective
 
+/-- `encoding/html/htmldefaults` `Decoder.init`: the compiled configuration is not used directly but re-issued
+    as setter calls on a fresh `html.DocumentConfig` (`SetLocation`, then the two offset setters). Unrepaired
+    code (`legacy`): `SetCaptureTextOffsets(*capture)` BEFORE `SetInitialTextOffset(*initial)`, so a compiled
+    `capture = false, initial = o` (e.g. `SetInitialTextOffset(o).SetCaptureTextOffsets(false)`) comes out with
+    capture on. Repaired code (patch c16opts-1): initial offset first, capture flag last. -/
+def htmlDefaultsForward (legacy : Bool) (c : Cfg) : List Setter :=
+  let b := match c.base with | some n => [Setter.base n] | none => []
+  let cap := match c.capture with | some v => [Setter.capture v] | none => []
+  let ini := match c.init with | some o => [Setter.initial o] | none => []
+  if legacy then b ++ cap ++ ini else b ++ ini ++ cap
+
+/-- `htmldefaults.NewDecoder(r, opts...)` followed by `init` -/
+def newDecoderHtmlDefaults (legacy : Bool) (opts : List (List Setter)) : Eff :=
+  (build (htmlDefaultsForward legacy (compile (opts.map build)))).effective
+
 end RdfModel.DecOpts
